@@ -31,8 +31,13 @@ def run_property(pid, tier="quick", overlay=None, write=True, out=print, root=No
         mod = importlib.import_module("spverif.props.%s" % pid.lower())
         ctx = Ctx(overlay=overlay, root=root)
         mod.run(ctx, chk, tier=tier)
-        if tier == "thorough" and overlay is None and hasattr(mod, "thorough"):
-            mod.thorough(ctx, chk)
+        if tier == "thorough" and overlay is None:
+            if hasattr(mod, "thorough"):
+                mod.thorough(ctx, chk)
+            if not chk.violations() and not chk.errors:
+                from . import selftest
+
+                selftest.run(pid, ctx, chk)
     except AnalysisError as exc:
         chk.errors.append("analysis error: %s" % exc)
     except Exception as exc:  # noqa
